@@ -18,7 +18,7 @@ BothOpen == M.open = "ok" /\ D.open = "ok"
 CommonP == DOMAIN M.nodes \cap DOMAIN D.nodes
 
 Attrs(n) == [ty |-> n.ty, perm |-> n.perm, sb |-> n.sb, size |-> n.size, uid |-> n.uid, gid |-> n.gid,
-             link |-> n.link, maj |-> n.maj, min |-> n.min, mtime |-> n.mtime, xa |-> n.xa]
+             link |-> n.link, maj |-> n.maj, min |-> n.min, mt |-> n.mt, xa |-> n.xa]
 
 (* both accept or reject the same blobs *)
 AgreeAccept == Loaded => M.open = D.open
@@ -56,6 +56,10 @@ Dis == (IF AgreeAccept THEN "" ELSE "accept,") \o (IF AgreeDigest THEN "" ELSE "
        \o (IF AgreeBytes THEN "" ELSE "bytes,") \o (IF AgreeOffsets THEN "" ELSE "offsets,")
        \o (IF AgreeClone THEN "" ELSE "clone,")
 Report == (Loaded /\ ~StoresAgree) => PrintT("VDIS " \o ToString(l) \o " " \o Dis)
+
+(* clone-early lines [n, rep, mem, db]: what a clone taken immediately after NewReader shows (BigToc(n)) *)
+EarlyCloneAgree == Loaded => TraceLog[l].mem = TraceLog[l].db
+ReportEarly == (Loaded /\ ~EarlyCloneAgree) => PrintT("VDIS " \o ToString(l) \o " early-clone,")
 
 MonInit == l = 0
 MonNext == l = 0 /\ l' \in 1..Len(TraceLog)
